@@ -918,6 +918,58 @@ def rule_build_sequence(rep, repo):
                loc=loc, instance=cfg)
 
 
+def rule_default_table(rep, repo):
+  """R11: the shipped quantization configuration.  `_get_quantizer` filters
+  the candidates of a limit by the width DECLARED in the table, so each
+  declared width has to be the width of the quantizer its text builds
+  (interpreted `get_quantizer`): `bits` of a parametrised quantizer, 1 for
+  the binary family, 2 for the ternary family."""
+  qcm = repo.module("qkeras.autoqkeras.quantization_config")
+  qm = repo.module("qkeras.quantizers")
+  unit = "%s::default_quantization_config" % qcm.relpath
+  rep.unit(unit)
+  pe = PE(repo)
+  try:
+    table = pe.lookup_global("default_quantization_config", qcm)
+  except Exception as e:  # pylint: disable=broad-except
+    raise AnalysisError("anchor-missing default_quantization_config (%s)" %
+                        e)
+  if not isinstance(table, dict) or not table:
+    raise AnalysisError("anchor-missing default_quantization_config is %r" %
+                        (table,))
+  n = 0
+  for role, entries in sorted(table.items()):
+    rep.check(isinstance(entries, dict) and bool(entries), "R11", unit,
+              "table-shape:" + str(role), "entry %r is %r" % (role, entries))
+    if not isinstance(entries, dict):
+      continue
+    for text, declared in sorted(entries.items()):
+      inst = "%s[%r]" % (role, text)
+      try:
+        q = pe.call(pe.lookup_global("get_quantizer", qm), [text], {})
+      except PyRaise as e:
+        rep.fail("R11", unit, "entry-does-not-parse",
+                 "%s: get_quantizer raises %s" % (inst, e), instance=inst)
+        continue
+      width = None
+      if isinstance(q, Obj) and "bits" in q.attrs:
+        width = q.attrs["bits"]
+      else:
+        base = text.split("(")[0]
+        if base in ("binary", "stochastic_binary", "bernoulli"):
+          width = 1
+        elif base in ("ternary", "stochastic_ternary"):
+          width = 2
+      n += 1
+      rep.check(width is not None and F(declared) == F(width), "R11", unit,
+                "declared-width!=quantizer-width",
+                "%s is declared as %r bits, the quantizer it builds has %r"
+                % (inst, declared, width), instance=inst,
+                observed="%r/%r" % (declared, width))
+  if n < 20:
+    raise AnalysisError("instance-count only %d table entries" % n)
+
+
 def rule_adjust_limit(rep, repo):
   """R1 (limit completion): a short per-class limit list is completed from
   the default limit role by role - kernel, bias, [recurrent kernel for
@@ -1111,6 +1163,8 @@ def run(rep, repo, tier):
   rep.require_instances("R9", 5)
   rule_build_sequence(rep, repo)
   rep.require_instances("R10", 8)
+  rule_default_table(rep, repo)
+  rep.require_instances("R11", 20)
   rep.require_instances("R1", 8)
   rep.require_instances("R2", 18)
   rep.require_instances("R3", 4)
